@@ -9,9 +9,13 @@
   the other end and OS steps.  `Port.real` carries what the translator read from the source: the size
   expression handed to `self._ser.read` and the poll count of `drop_all`.
 
+  `Line.real` carries how the port is opened (data bits, parity, stop bits, flow control), `port_is_transparent_8n1`
+  and `port_settings_never_changed` state that this is a transparent 8-bit line for as long as the port is open.
+
   What is NOT a theorem here (DESIGN.md section 8): that pyserial and the kernel tty layer behave like
-  this FIFO (raw mode, no translation of control characters, no loss).  That is measured on a
-  pseudo-terminal by `harness/props/C18.py` on every run.
+  this FIFO (raw mode, no translation of control characters, no loss; a write within the write timeout).
+  That is measured on a pseudo-terminal by `harness/props/C18.py` on every run (when a pty can be opened;
+  `coverage.pty_available` in the evidence says whether).
 -/
 import NxsModel.Lemmas.Pipe
 import NxsModel.Lemmas.ReasmRun
@@ -188,11 +192,101 @@ theorem port_timeouts_finite :
     Gen.SerialIntf.readTimeout.isSome = true ∧ Gen.SerialIntf.writeTimeout.isSome = true ∧
     0 < Gen.SerialIntf.dropAllPolls := by decide
 
-/-- the port is opened with a positive write timeout: a write blocks until the whole burst is handed to
-    the OS (with `write_timeout = 0` pyserial performs one non-blocking `os.write` and silently returns a
-    partial count, which `_write` ignores — bursts larger than the tty buffer would be truncated) -/
+/-- the port is opened with non-zero read and write timeouts.  NOTHING MORE is stated here; in particular NOT
+    that a write blocks until the whole burst is handed to the OS — with the finite `write_timeout` of
+    `port_timeouts_finite` pyserial gives up after that time and raises `SerialTimeoutException` (see
+    `write_longer_than_timeout_is_cut`).  What the fact excludes is `write_timeout = 0`, with which pyserial
+    performs one non-blocking `os.write` and silently returns a partial count that `_write` ignores: bursts
+    larger than the free room of the tty buffer would be truncated without any error. -/
 theorem write_blocks_until_written :
     Gen.SerialIntf.writeTimeout ≠ some 0 ∧ Gen.SerialIntf.readTimeout ≠ some 0 := by decide
+
+/-! ### how the port is opened: 8 data bits, no parity, one stop bit, no flow control
+
+The FIFO pipe of the model (every value 0..255 passes, bytes move whenever the OS moves them) is a UART line
+only under these settings.  A pseudo-terminal cannot tell: it passes 0x80..0xff under 7 data bits and ignores
+CRTSCTS.  So this part of the tie is static (translator facts `Gen.SerialIntf.open*`, `serAttrs`,
+`serHandleShape`) and the oracle of `harness/props/C18.py` reads the same settings back from the pyserial
+object and from `termios.tcgetattr` of a pty opened by the real constructor. -/
+
+/-- a `SerialDevice(port)` with its default arguments opens the port 8N1 without software or hardware flow
+    control, and passes pyserial exactly the settings port, baud rate, data bits, parity, stop bits and the two
+    timeouts (no `inter_byte_timeout`, `exclusive`, or anything else); such a line hands over every byte value
+    0..255 unchanged, and nothing but the sender decides when written bytes move -/
+theorem port_is_transparent_8n1 :
+    Line.real = ⟨8, "N", 1, false, false, false⟩ ∧
+    Gen.SerialIntf.openArgs = ["baudrate", "bytesize", "parity", "port", "stopbits", "timeout", "write_timeout"] ∧
+    Line.real.is8N1 = true ∧
+    (∀ b, b < 256 → Line.real.carry b = some b) ∧
+    Line.real.mayHoldWrites = false :=
+  ⟨by decide, by decide, by decide, fun b hb => Line.carry_of_is8N1 _ (by decide) b hb, by decide⟩
+
+/-- the port object is only ever used through `read`, `write`, `in_waiting` and `close`: no statement of the
+    class assigns to `self._ser.<attr>` (`self._ser.rtscts = True`, `self._ser.timeout = None`, …), calls a
+    reconfiguring method (`apply_settings`, `reset_input_buffer`, `send_break`, …), aliases the object or hands
+    it to other code; `self._ser` itself is assigned only in `__init__` (the `serial.Serial(…)` call, or `None`
+    when opening failed).  So the settings of `port_is_transparent_8n1` hold for as long as the port is open. -/
+theorem port_settings_never_changed :
+    Gen.SerialIntf.serHandleShape = true ∧
+    Gen.SerialIntf.serAttrs = ["close", "in_waiting", "read", "write"] := by decide
+
+/-- what the settings are needed for — any line, not only the configured one: all 256 byte values pass
+    unchanged exactly when there are at least 8 data bits and no XON/XOFF handling -/
+theorem line_transparent_iff (l : Line) :
+    (∀ b, b < 256 → l.carry b = some b) ↔ (8 ≤ l.dataBits ∧ l.xonxoff = false) := Line.carry_all_iff l
+
+/-- the reviewer's edit (7 data bits, RTS/CTS): 0x80 arrives as 0x00, and the other end can hold writes -/
+example : (⟨7, "N", 1, false, true, false⟩ : Line).carry 0x80 = some 0 ∧
+    (⟨7, "N", 1, false, true, false⟩ : Line).mayHoldWrites = true := by decide
+
+/-- XON/XOFF (seeded change C18-r2m1): 0x11 and 0x13 never arrive -/
+example : (⟨8, "N", 1, true, false, false⟩ : Line).carry 0x13 = none := by decide
+
+/-! ### writes and the write timeout
+
+`writeAccepted room rate t n` (Pipe.lean) is what pyserial's `write` hands to the OS of an `n`-byte burst
+within the write timeout `t` when the transmit buffer has `room` free bytes and the line drains `rate` bytes
+per tenth of a second.  This is a model of pyserial + the tty layer, measured (C18.py `pty txp`), not proved. -/
+
+/-- every burst the client itself produces — a request frame of at most 263 bytes (the longest: a bulk
+    enable / divider request for 255 channels: 4 header + 2 + 255 + 2 footer bytes; measured on the real
+    `Parser.frame_enable` / `frame_div`) aligned to a padding of at most 255 (at most 510 bytes on the wire) — is
+    handed over whole within the write timeout of the source, even when the transmit buffer
+    is completely full at the call, on every line that takes at least 52 bytes per tenth of a second
+    (5200 baud at 10 bits per byte: every standard rate from 9600 baud up; the default 115200 baud takes 1152).
+    With `port_is_transparent_8n1` (nobody else can hold the line) the write timeout therefore never cuts a
+    client request. -/
+theorem requests_written_whole (room rate p : Nat) (d : Bytes) (hd : d.length ≤ 263) (hp : p ≤ 255)
+    (hr : 52 ≤ rate) :
+    writeAccepted room rate Gen.SerialIntf.writeTimeout (Pad.dataAlign p d).length
+      = (Pad.dataAlign p d).length := by
+  have ht : Gen.SerialIntf.writeTimeout = some 10 := by decide
+  rw [ht]
+  apply writeAccepted_of_le
+  have := dataAlign_length_le p d
+  omega
+
+/-- hypotheses satisfiable: a 263-byte request, padding 255 (→ 510 bytes), full buffer, 9600 baud -/
+example : writeAccepted 0 96 Gen.SerialIntf.writeTimeout (Pad.dataAlign 255 (List.replicate 263 0x55)).length = 510 := by
+  decide +kernel
+
+/-- …but a single write of arbitrary length is NOT delivered whole: a burst longer than the free room plus
+    what the line takes within the write timeout is cut there (and `self._ser.write` raises
+    `SerialTimeoutException`, which `SerialDevice._write` lets propagate — the loss is not silent).  The client
+    never issues such a write (`requests_written_whole`); a caller of `SerialDevice.write` can. -/
+theorem write_longer_than_timeout_is_cut (room rate n : Nat) (h : room + rate * 10 < n) :
+    writeAccepted room rate Gen.SerialIntf.writeTimeout n = room + rate * 10 ∧
+    writeAccepted room rate Gen.SerialIntf.writeTimeout n < n := by
+  have ht : Gen.SerialIntf.writeTimeout = some 10 := by decide
+  rw [ht, writeAccepted_of_gt room rate 10 n h]
+  exact ⟨rfl, h⟩
+
+/-- the reviewer's measurement (a pty drained at about 10 kB/s, `write` of 65536 bytes: 10240 bytes delivered,
+    then `SerialTimeoutException`), and a UART at the default 115200 baud with a 4096-byte transmit buffer:
+    a single write of more than 15616 bytes is cut -/
+example : writeAccepted 0 1024 Gen.SerialIntf.writeTimeout 65536 = 10240 ∧
+    writeAccepted 4096 1152 Gen.SerialIntf.writeTimeout 15616 = 15616 ∧
+    writeAccepted 4096 1152 Gen.SerialIntf.writeTimeout 15617 = 15616 := by decide
 
 /-! ### non-vacuity -/
 
